@@ -115,7 +115,7 @@ def definite_check(M, tol, sign, stats, name):
     bound = -Fraction(tol) * lam_up * nrm
     if q < bound:
         return {"kind": "not-%s-semidefinite" % ("positive" if sign > 0 else "negative"), "matrix": name,
-                "min_eig_float": float(w[0]) * sign if sign < 0 else float(w[0]), "lambda_max": lam_max,
+                "min_eig_float_of_signed_matrix": float(w[0]), "lambda_max": lam_max,
                 "exact_qf_over_norm": float(q / nrm), "bound": float(bound / nrm), "tol": tol,
                 "direction": [float(x) for x in c], "n": n}
     stats["suspected_not_confirmed"] = stats.get("suspected_not_confirmed", 0) + 1
@@ -167,8 +167,8 @@ def eval_one(model, case):
     gb = [s.to_gbasis() for s in basis]
     n = sum(s.nfun() for s in basis)
     pts = _pts(case)
-    tag = "one n=%d %s geom=%s dep=%s" % (len(basis), _types(basis), case.get("geom", "?"), case.get("dep", "-"))
-    stats = {}
+    tag = "one n=%d" % len(basis)
+    stats = _dims(case, basis, n)
     out = {"nontrivial": n >= 2, "tag": tag, "stats": stats, "detail": None}
     bsx = twoindex.basis_sx(basis)
 
@@ -281,6 +281,21 @@ def _types(basis):
     return "".join("s" if s.sph else "c" for s in basis)
 
 
+def _dims(case, basis, n):
+    """per-case counters of the input distribution (summed into the evidence as stat:<key>)"""
+    t = _types(basis)
+    pat = "all-cartesian" if "s" not in t else ("all-spherical" if "c" not in t else "mixed")
+    k = case["kind"]
+    d = {"%s geom=%s" % (k, case.get("geom", "?")): 1, "%s dep=%s" % (k, case.get("dep", "-")): 1,
+         "%s types=%s" % (k, pat): 1, "%s lmax=%d" % (k, max(s.l for s in basis)): 1,
+         "%s functions<=%d" % (k, next(b for b in (1, 4, 9, 16, 25, 50, 100, 1000) if n <= b)): 1,
+         "%s generalized(M>1)" % k: int(any(len(s.coeffs[0]) > 1 for s in basis)),
+         "%s contracted(K>1)" % k: int(any(len(s.exps) > 1 for s in basis))}
+    for p in case.get("pts", []):
+        d["charges"] = d.get("charges", 0) + 1
+    return d
+
+
 # ----------------------------------------------------------------------------------------------
 # electron repulsion case
 # ----------------------------------------------------------------------------------------------
@@ -302,9 +317,8 @@ def eval_eri(model, case):
     gb = [s.to_gbasis() for s in basis]
     n = sum(s.nfun() for s in basis)
     notation = case.get("notation", "chemist")
-    tag = "eri n=%d %s geom=%s dep=%s %s" % (len(basis), _types(basis), case.get("geom", "?"), case.get("dep", "-"),
-                                             notation)
-    stats = {}
+    tag = "eri n=%d %s" % (len(basis), notation)
+    stats = _dims(case, basis, n)
     out = {"nontrivial": n >= 2, "tag": tag, "stats": stats, "detail": None}
     bsx = twoindex.basis_sx(basis)
 
@@ -460,7 +474,11 @@ def gen_basis17(rng, n, lo, hi, lmax=3, kmax=3, mmax=3, geom=None, dep=None, lca
     basis = []
     for i in range(n):
         sph = True if mode < 0.25 else (False if mode < 0.5 else (rng.random() < 0.5))
-        basis.append(gen_shell(rng, lmax=lmax, kmax=kmax, mmax=mmax, sph=sph, exp_lo=lo, exp_hi=hi, coord=cs[i]))
+        sh = gen_shell(rng, lmax=lmax, kmax=kmax, mmax=mmax, sph=sph, exp_lo=lo, exp_hi=hi, coord=cs[i])
+        k_, m_ = len(sh.exps), len(sh.coeffs[0])
+        if m_ > k_ and rng.random() < 0.9:     # more columns than primitives = exactly dependent: keep it a minority
+            sh.coeffs = [row[:k_] for row in sh.coeffs]
+        basis.append(sh)
     if dep is None:
         dep = rng.choice(DEPS) if rng.random() < 0.5 else "-"
     if dep != "-":
@@ -504,7 +522,7 @@ def gen_cases(tier, seed):
     cases = []
     quick = tier == "quick"
     # ---- one-electron matrices ----
-    n_one = 420 if quick else 6000
+    n_one = 900 if quick else 9000
     for i in range(n_one):
         n = 1 + i % 5
         basis, geom, dep = gen_basis17(rng, n, 0.05, 50.0)
@@ -527,7 +545,7 @@ def gen_cases(tier, seed):
                 cases.append({"kind": "one", "basis": [s.to_json() for s in basis], "pts": pts, "geom": geom2,
                               "dep": dep2, "cmp": True})
     # ---- repulsion array ----
-    n_eri = 150 if quick else 1400
+    n_eri = 260 if quick else 1600
     for i in range(n_eri):
         n = 1 + i % 4 if quick else 1 + i % 5
         r = rng.random()
